@@ -454,6 +454,13 @@ func cmdRun(args []string) {
 			agg.Faults[k] += v
 		}
 		for k, v := range o.Probes {
+			if strings.HasPrefix(k, "max:") {
+				if v > agg.Probes[k] {
+					agg.Probes[k] = v
+				}
+
+				continue
+			}
 			agg.Probes[k] += v
 		}
 		for k, v := range o.Classes {
@@ -793,11 +800,12 @@ func replayHangs(binary, scratch, file string) (bool, string) {
 	go func() { done <- cmd.Wait() }()
 	select {
 	case <-done:
-		if _, err := os.Stat(j.Out); err == nil {
-			return false, buf.String()
+		// exit status 3 = the worker's own watchdog saw no controller step for 45 s
+		if cmd.ProcessState != nil && cmd.ProcessState.ExitCode() == 3 {
+			return true, buf.String()
 		}
-		// the in-process watchdog killed it (exit 3) or it crashed: not finished
-		return strings.Contains(buf.String(), "no controller step") || cmd.ProcessState.ExitCode() == 3, buf.String()
+
+		return false, buf.String()
 	case <-time.After(70 * time.Second):
 		_ = cmd.Process.Signal(syscall.SIGQUIT)
 		select {
